@@ -95,3 +95,10 @@ check("C05",
   "S part: for every generated (formula, flavour, row order) each group-specific term equals, as z3 terms, a matrix that is zero outside the slots of the row's own group, the groups are listed in sorted (declared for ordered data) order with g1:g2 cells lexicographic, and the effect columns equal the full or reduced common-effects coding of the effect term. L part: for every (effect expression, grouping expression, with/without 0 +) z3 (QF_LRA) decides that the columns of all terms sharing a grouping factor are linearly independent and span ModelSpace(effect) (x) indicators(group cells). Three known findings (effect interactions without margins, several terms without intercept) are listed by explicit formula.",
   "Trusted: z3; exact integer data in general position (L); stubs in evidence (S); the three lists under known/. Effect/grouping expressions and flavours are enumerated.",
   "DESIGN.md section 4 C05")
+
+check("C11",
+  "exhaustive exploration (solver-forked decision bits) of which scopes define a name, through the real design_matrices with z3-valued bindings; 'first match wins' decided by z3",
+  "model_checking",
+  "For every role (positional argument, keyword argument, callee), name flavour (plain, dotted m.fn / m.sub.fn, back-quoted) and env depth 0..3 (generated nested callers with their own globals and decoy bindings), all subsets of {data frame, built-ins, caller locals, caller globals, extra_namespace} defining the name are explored; each scope binds a different z3 value (or None), and the design-matrix column must equal, as z3 terms, x + the value of the first defining scope in the documented order (callee skips the data frame); a name defined nowhere must raise. VarLookupDict is explored separately over dict layouts incl. None values.",
+  "Trusted: z3; stubs in evidence. The built-in scope is represented by the built-in name 'I'. Scope subsets are enumerated decision bits; the values are symbolic.",
+  "DESIGN.md section 4 C11")
